@@ -91,6 +91,109 @@ Qed.
 Theorem sort_spec l : Permutation l (sort l) /\ StronglySorted sle (sort l).
 Proof. split; [apply sort_perm | apply sort_ssorted]. Qed.
 
+
+(* the same for sorted(key=...) in general: any total, transitive, ANTISYMMETRIC comparison gives a canonical result *)
+Section GSort.
+  Variable A : Type.
+  Variable leb : A -> A -> bool.
+  Hypothesis leb_total : forall a b, leb a b = true \/ leb b a = true.
+  Hypothesis leb_trans : forall a b c, leb a b = true -> leb b c = true -> leb a c = true.
+  Hypothesis leb_antisym : forall a b, leb a b = true -> leb b a = true -> a = b.
+  Let gle (a b : A) : Prop := leb a b = true.
+
+  Lemma ginsert_perm x l : Permutation (x :: l) (ginsert leb x l).
+  Proof.
+    induction l as [|y l IH]; cbn; [apply Permutation_refl|].
+    destruct (leb x y); [apply Permutation_refl|].
+    eapply perm_trans; [apply perm_swap|]. apply perm_skip; exact IH.
+  Qed.
+
+  Lemma gsort_perm l : Permutation l (gsort leb l).
+  Proof.
+    induction l as [|x l IH]; cbn; [constructor|].
+    eapply perm_trans; [apply perm_skip; exact IH | apply ginsert_perm].
+  Qed.
+
+  Lemma ginsert_ssorted x l : StronglySorted gle l -> StronglySorted gle (ginsert leb x l).
+  Proof.
+    induction l as [|y l IH]; intros Hs; cbn.
+    - constructor; constructor.
+    - inversion Hs as [|? ? Hs' Hall]; subst.
+      destruct (leb x y) eqn:E.
+      + constructor; [exact Hs|]. constructor; [exact E|].
+        eapply Forall_impl; [|exact Hall]. intros z Hz. unfold gle in *. eapply leb_trans; eauto.
+      + constructor; [apply IH; exact Hs'|].
+        assert (Hyx : gle y x) by (destruct (leb_total x y) as [H|H]; [congruence|exact H]).
+        eapply Permutation_Forall; [apply ginsert_perm|]. constructor; assumption.
+  Qed.
+
+  Lemma gsort_ssorted l : StronglySorted gle (gsort leb l).
+  Proof. induction l as [|x l IH]; cbn; [constructor|]. apply ginsert_ssorted; exact IH. Qed.
+
+  Lemma gssorted_perm_eq l1 : forall l2,
+    StronglySorted gle l1 -> StronglySorted gle l2 -> Permutation l1 l2 -> l1 = l2.
+  Proof.
+    induction l1 as [|a l1 IH]; intros l2 H1 H2 HP.
+    - apply Permutation_nil in HP; subst; reflexivity.
+    - destruct l2 as [|b l2]; [apply Permutation_sym, Permutation_nil in HP; discriminate|].
+      inversion H1 as [|? ? H1' A1]; inversion H2 as [|? ? H2' A2]; subst.
+      assert (a = b) as ->.
+      { assert (Ia : In a (b :: l2)) by (eapply Permutation_in; [exact HP|left; reflexivity]).
+        assert (Ib : In b (a :: l1)) by (eapply Permutation_in; [apply Permutation_sym; exact HP|left; reflexivity]).
+        destruct Ia as [->|Ia]; [reflexivity|]. destruct Ib as [->|Ib]; [reflexivity|].
+        rewrite Forall_forall in A1, A2. apply leb_antisym; [apply A1; exact Ib | apply A2; exact Ia]. }
+      f_equal. apply IH; try assumption. eapply Permutation_cons_inv; exact HP.
+  Qed.
+
+  Theorem gsort_canonical l1 l2 : Permutation l1 l2 -> gsort leb l1 = gsort leb l2.
+  Proof.
+    intros HP. apply gssorted_perm_eq; try apply gsort_ssorted.
+    eapply perm_trans; [apply Permutation_sym, gsort_perm|]. eapply perm_trans; [exact HP|apply gsort_perm].
+  Qed.
+End GSort.
+
+(* a key with the exact name as tie-breaker, key = (k x, x), is such a comparison -- for EVERY key function k *)
+Lemma pair_leb_total k a b : pair_leb k a b = true \/ pair_leb k b a = true.
+Proof.
+  unfold pair_leb. destruct (str_eqb_spec (k a) (k b)) as [E|E].
+  - rewrite E, str_eqb_refl. apply str_leb_total.
+  - destruct (str_eqb_spec (k b) (k a)) as [E'|E']; [congruence|]. apply str_leb_total.
+Qed.
+
+Lemma pair_leb_antisym k a b : pair_leb k a b = true -> pair_leb k b a = true -> a = b.
+Proof.
+  unfold pair_leb. destruct (str_eqb_spec (k a) (k b)) as [E|E].
+  - rewrite E, str_eqb_refl. apply str_leb_antisym.
+  - destruct (str_eqb_spec (k b) (k a)) as [E'|E']; [congruence|].
+    intros H1 H2. exfalso. apply E. apply str_leb_antisym; assumption.
+Qed.
+
+Lemma pair_leb_trans k a b c : pair_leb k a b = true -> pair_leb k b c = true -> pair_leb k a c = true.
+Proof.
+  unfold pair_leb.
+  destruct (str_eqb_spec (k a) (k b)) as [E1|E1]; destruct (str_eqb_spec (k b) (k c)) as [E2|E2];
+    destruct (str_eqb_spec (k a) (k c)) as [E3|E3]; intros H1 H2; try congruence.
+  - eapply str_leb_trans; eassumption.
+  - exfalso. apply E1. apply str_leb_antisym; [exact H1|]. rewrite E3. exact H2.
+  - eapply str_leb_trans; eassumption.
+Qed.
+
+Theorem keyed_sort_with_tiebreak_canonical k l1 l2 :
+  Permutation l1 l2 -> gsort (pair_leb k) l1 = gsort (pair_leb k) l2.
+Proof.
+  apply gsort_canonical; [apply pair_leb_total | apply pair_leb_trans | apply pair_leb_antisym].
+Qed.
+
+(* without the tie-breaker the result depends on the input order as soon as two names tie: "Abc"/"abc", "u7"/"u07" *)
+Theorem keyed_sort_without_tiebreak_refuted :
+  exists l1 l2, Permutation l1 l2 /\ gsort (key_leb natkey) l1 <> gsort (key_leb natkey) l2.
+Proof.
+  exists [[117; 55]; [117; 48; 55]], [[117; 48; 55]; [117; 55]]. split; [apply perm_swap|]. vm_compute. discriminate.
+Qed.
+
+Lemma natkey_ties : natkey [117; 48; 48; 55] = natkey [85; 55] /\ natkey [65; 98; 99] = natkey [97; 98; 99].
+Proof. vm_compute. split; reflexivity. Qed.
+
 (* ---------------------------------------------------------------------------------------------- *)
 (* small list facts                                                                                *)
 (* ---------------------------------------------------------------------------------------------- *)
@@ -195,12 +298,13 @@ Section Indep.
   Definition env_agree (l : lang) (e1 e2 : env) : Prop :=
     (ungated tbl l KClock = true -> e_clock e1 = e_clock e2) /\
     (ungated tbl l KAbsSrc || ungated tbl l KPickle
-       || (ungated tbl l KPlatform && negb (sf_platform_gated sf)) = true -> e_abs e1 = e_abs e2) /\
+       || (ungated tbl l KPlatform && negb (sf_platform_gated sf))
+       || (ungated tbl l KTmplSets && negb (sf_template_sets_pure sf)) = true -> e_abs e1 = e_abs e2) /\
     (ungated tbl l KCwd = true -> e_cwd e1 = e_cwd e2).
 
   (* the source facts the order-independence needs for this configuration *)
   Definition order_facts (c : cfg) : bool :=
-    (negb (uses_includes (c_lang c)) || sf_inc_sorted sf) && negb (ungated tbl (c_lang c) KNsIter).
+    (negb (uses_includes (c_lang c)) || sf_inc_sorted sf) && negb (ungated tbl (c_lang c) KNsIter) && sf_natsort_total sf.
 
   Lemma include_list_indep e1 e2 c d :
     sf_inc_sorted sf = true -> include_list sf e1 c d = include_list sf e2 c d.
@@ -228,9 +332,13 @@ Section Indep.
     - rewrite Hp; [reflexivity|]. erewrite (ungated_intro _ KPickle); eauto. rewrite orb_true_r. reflexivity.
     - rewrite Hw; [reflexivity|]. eapply ungated_intro; eauto.
     - destruct (sf_platform_gated sf) eqn:Hpg; cbn [negb]; [reflexivity|].
-      rewrite Hp; [reflexivity|]. erewrite (ungated_intro _ KPlatform); eauto. rewrite !orb_true_r. reflexivity.
+      rewrite Hp; [reflexivity|]. erewrite (ungated_intro _ KPlatform); eauto.
+      cbn [andb negb]. rewrite orb_true_r. reflexivity.
     - reflexivity.
     - reflexivity.
+    - destruct (sf_template_sets_pure sf) eqn:Hts; cbn [negb]; [rewrite andb_false_r; reflexivity|].
+      rewrite Hp; [reflexivity|]. erewrite (ungated_intro _ KTmplSets); eauto.
+      cbn [andb negb]. rewrite orb_true_r. reflexivity.
   Qed.
 
   Lemma header_indep e1 e2 c it :
@@ -241,22 +349,23 @@ Section Indep.
   Qed.
 
   Lemma nested_view_indep e1 e2 c I it :
-    ungated tbl (c_lang c) KNsIter = false -> nested_view tbl e1 c I it = nested_view tbl e2 c I it.
+    ungated tbl (c_lang c) KNsIter = false -> sf_natsort_total sf = true ->
+    nested_view sf tbl e1 c I it = nested_view sf tbl e2 c I it.
   Proof.
-    intros Hn. unfold nested_view, ns_sorted_in_templates. rewrite Hn. cbn [negb].
-    destruct it; try reflexivity. f_equal. apply sorted_canonical, Permutation_map, nested_perm.
+    intros Hn Ht. unfold nested_view, ns_sorted_in_templates, nat_leb. rewrite Hn, Ht. cbn [negb].
+    destruct it; try reflexivity. f_equal. apply keyed_sort_with_tiebreak_canonical, Permutation_map, nested_perm.
   Qed.
 
   Lemma mk_write_indep e1 e2 c I it :
     c_embed_audit c = false -> order_facts c = true -> env_agree (c_lang c) e1 e2 ->
     mk_write B sf tbl render e1 c I it = mk_write B sf tbl render e2 c I it.
   Proof.
-    intros Ha Hof Hag. apply andb_prop in Hof as [Hinc Hns]. apply negb_true_iff in Hns.
+    intros Ha Hof Hag. apply andb_prop in Hof as [Hof Hnat]. apply andb_prop in Hof as [Hinc Hns]. apply negb_true_iff in Hns.
     unfold mk_write. f_equal. f_equal.
     - apply header_indep; assumption.
     - destruct it; try reflexivity. destruct (uses_includes (c_lang c)); [|reflexivity].
       apply include_list_indep. exact Hinc.
-    - unfold audit_view. rewrite Ha. f_equal. apply nested_view_indep; exact Hns.
+    - unfold audit_view. rewrite Ha. f_equal. apply nested_view_indep; assumption.
   Qed.
 
   (* the multiset of (relative path, content) writes does not depend on the environment *)
@@ -326,13 +435,13 @@ Section Indep.
 
   (* when every use in the language is gated (or not ambient), no agreement is needed at all *)
   Lemma clean_no_ungated l k :
-    lang_clean sf tbl l = true -> k <> KPlatform -> ungated tbl l k = false.
+    lang_clean sf tbl l = true -> k <> KPlatform -> k <> KTmplSets -> ungated tbl l k = false.
   Proof.
-    intros Hc Hk. unfold ungated. apply not_true_is_false. intros H. apply existsb_exists in H as (s & Hin & Hs).
+    intros Hc Hk Hk'. unfold ungated. apply not_true_is_false. intros H. apply existsb_exists in H as (s & Hin & Hs).
     unfold lang_clean in Hc. rewrite forallb_forall in Hc. specialize (Hc s Hin).
     apply andb_prop in Hs as [Hs Hg]. apply andb_prop in Hs as [Hl Hkk]. rewrite Hl in Hc. cbn [negb orb] in Hc.
     unfold site_ok in Hc. apply negb_true_iff in Hg. rewrite Hg in Hc. cbn [orb] in Hc.
-    destruct (s_kind s) eqn:E; try discriminate. destruct k; try discriminate. congruence.
+    destruct (s_kind s) eqn:E; try discriminate; destruct k; try discriminate; congruence.
   Qed.
 
   Lemma clean_platform l :
@@ -346,18 +455,29 @@ Section Indep.
     destruct (s_kind s); try discriminate. rewrite Hc. reflexivity.
   Qed.
 
+  Lemma clean_tmplsets l :
+    lang_clean sf tbl l = true -> ungated tbl l KTmplSets && negb (sf_template_sets_pure sf) = false.
+  Proof.
+    intros Hc. destruct (ungated tbl l KTmplSets) eqn:U; [|reflexivity]. cbn.
+    unfold ungated in U. apply existsb_exists in U as (s & Hin & Hs).
+    unfold lang_clean in Hc. rewrite forallb_forall in Hc. specialize (Hc s Hin).
+    apply andb_prop in Hs as [Hs Hg]. apply andb_prop in Hs as [Hl Hkk]. rewrite Hl in Hc. cbn [negb orb] in Hc.
+    unfold site_ok in Hc. apply negb_true_iff in Hg. rewrite Hg in Hc. cbn [orb] in Hc.
+    destruct (s_kind s); try discriminate. rewrite Hc. reflexivity.
+  Qed.
+
   Lemma clean_env_agree l e1 e2 : lang_clean sf tbl l = true -> env_agree l e1 e2.
   Proof.
     intros Hc. unfold env_agree.
     rewrite (clean_no_ungated l KClock Hc), (clean_no_ungated l KAbsSrc Hc), (clean_no_ungated l KPickle Hc),
-            (clean_no_ungated l KCwd Hc), (clean_platform l Hc) by discriminate.
+            (clean_no_ungated l KCwd Hc), (clean_platform l Hc), (clean_tmplsets l Hc) by discriminate.
     cbn. repeat split; discriminate.
   Qed.
 
   Lemma clean_order_facts c :
-    lang_clean sf tbl (c_lang c) = true -> sf_inc_sorted sf = true -> order_facts c = true.
+    lang_clean sf tbl (c_lang c) = true -> sf_inc_sorted sf = true -> sf_natsort_total sf = true -> order_facts c = true.
   Proof.
-    intros Hc Hs. unfold order_facts. rewrite Hs, (clean_no_ungated _ KNsIter Hc) by discriminate.
+    intros Hc Hs Hn. unfold order_facts. rewrite Hs, Hn, (clean_no_ungated _ KNsIter Hc) by discriminate.
     rewrite orb_true_r. reflexivity.
   Qed.
 
@@ -367,16 +487,16 @@ Section Indep.
     forall p, files B sf tbl render e1 c I p = files B sf tbl render e2 c I p.
   Proof.
     intros Ha Hsf Hc. apply run_env_indep_gen; [exact Ha| |apply clean_env_agree; exact Hc].
-    apply clean_order_facts; [exact Hc|]. unfold src_facts_ok in Hsf.
-    repeat (apply andb_prop in Hsf as [Hsf ?]). exact Hsf.
+    unfold src_facts_ok in Hsf. repeat (apply andb_prop in Hsf as [Hsf ?]).
+    apply clean_order_facts; assumption.
   Qed.
 
   (* the only ungated use being `T | pickle` (F-PY-PICKLEPATH): everything but the absolute location is still
      irrelevant *)
   Lemma pickle_only_no_ungated l k :
-    lang_clean_but_pickle sf tbl l = true -> k <> KPlatform -> k <> KPickle -> ungated tbl l k = false.
+    lang_clean_but_pickle sf tbl l = true -> k <> KPlatform -> k <> KPickle -> k <> KTmplSets -> ungated tbl l k = false.
   Proof.
-    intros Hc Hk Hk2. unfold ungated. apply not_true_is_false. intros H. apply existsb_exists in H as (s & Hin & Hs).
+    intros Hc Hk Hk2 Hk3. unfold ungated. apply not_true_is_false. intros H. apply existsb_exists in H as (s & Hin & Hs).
     unfold lang_clean_but_pickle in Hc. rewrite forallb_forall in Hc. specialize (Hc s Hin).
     apply andb_prop in Hs as [Hs Hg]. apply andb_prop in Hs as [Hl Hkk]. rewrite Hl in Hc. cbn [negb orb] in Hc.
     unfold site_ok, is_py_pickle in Hc. apply negb_true_iff in Hg. rewrite Hg in Hc. cbn [orb] in Hc.
@@ -396,6 +516,18 @@ Section Indep.
     rewrite Hc. reflexivity.
   Qed.
 
+  Lemma pickle_only_tmplsets l :
+    lang_clean_but_pickle sf tbl l = true -> ungated tbl l KTmplSets && negb (sf_template_sets_pure sf) = false.
+  Proof.
+    intros Hc. destruct (ungated tbl l KTmplSets) eqn:U; [|reflexivity]. cbn.
+    unfold ungated in U. apply existsb_exists in U as (s & Hin & Hs).
+    unfold lang_clean_but_pickle in Hc. rewrite forallb_forall in Hc. specialize (Hc s Hin).
+    apply andb_prop in Hs as [Hs Hg]. apply andb_prop in Hs as [Hl Hkk]. rewrite Hl in Hc. cbn [negb orb] in Hc.
+    unfold site_ok, is_py_pickle in Hc. apply negb_true_iff in Hg. rewrite Hg in Hc. cbn [orb] in Hc.
+    destruct (s_kind s); try discriminate. rewrite andb_false_r in Hc. cbn in Hc. rewrite orb_false_r in Hc.
+    rewrite Hc. reflexivity.
+  Qed.
+
   Theorem run_env_indep_same_location e1 e2 c I :
     c_embed_audit c = false -> src_facts_ok sf = true -> lang_clean_but_pickle sf tbl (c_lang c) = true ->
     e_abs e1 = e_abs e2 ->
@@ -405,7 +537,7 @@ Section Indep.
     intros Ha Hsf Hc Habs. unfold src_facts_ok in Hsf. repeat (apply andb_prop in Hsf as [Hsf ?]).
     apply run_env_indep_gen; [exact Ha| |].
     - unfold order_facts. rewrite Hsf, (pickle_only_no_ungated _ KNsIter Hc) by discriminate.
-      rewrite orb_true_r. reflexivity.
+      rewrite orb_true_r. cbn [negb andb]. assumption.
     - unfold env_agree.
       rewrite (pickle_only_no_ungated _ KClock Hc), (pickle_only_no_ungated _ KCwd Hc) by discriminate.
       repeat split; try discriminate. intros _; exact Habs.
@@ -438,7 +570,7 @@ Definition mk_cfg (l : lang) (audit : bool) : cfg :=
      c_ext := match l with LC => [46; 104] | LCpp => [46; 104; 112; 112] | LPy => [46; 112; 121] | LHtml => [46; 104; 116; 109; 108] end;
      c_stem := match l with LPy => [95; 95; 105; 110; 105; 116; 95; 95] | _ => [95] end;
      c_gen_ns := match l with LPy | LHtml => true | _ => false end;
-     c_embed_audit := audit; c_omit_ser := false; c_prefer_sys := match l with LC => true | _ => false end;
+     c_user_templates := false; c_embed_audit := audit; c_omit_ser := false; c_prefer_sys := match l with LC => true | _ => false end;
      c_support_incs := match l with LC => [[110; 47; 115; 46; 104]] | LCpp => [[110; 47; 115; 46; 104; 112; 112]] | _ => [] end;
      c_support_files := match l with LC => [[[110]; [115; 46; 104]]] | LCpp => [[[110]; [115; 46; 104; 112; 112]]]
                                    | LPy => [[[110; 115; 117; 112; 46; 112; 121]]] | LHtml => [] end |}.
@@ -447,6 +579,7 @@ Definition env_a : env := mk_env 1000 [[119]] [[97]] 0.
 Definition env_b : env := mk_env 2000 [[120]] [[98; 98]] 1.
 Definition env_b_same_abs : env := mk_env 2000 [[120]] [[97]] 2.
 Definition env_c : env := mk_env 3000 [[121]] [[99]; [100]] 2.
+Definition env_d : env := mk_env 1000 [[119]] [[97]] 3.
 
 Definition render0 : option audit -> cfg -> item -> list (list str) -> list (list str) := fun _ _ _ v => v.
 Definition p_A (c : cfg) : list str := item_path c (ITy d_A).
@@ -482,6 +615,40 @@ Theorem unsorted_namespace_iteration_refuted :
     files _ facts_all_true tbl_nsiter render0 e1 (mk_cfg LPy false) I p
     <> files _ facts_all_true tbl_nsiter render0 e2 (mk_cfg LPy false) I p.
 Proof. exists ex_inputs, env_a, env_c, (item_path (mk_cfg LPy false) (INs [[110; 115]])). vm_compute. discriminate. Qed.
+
+(* the HTML natural sort without tie-breaker (F-HTML-NATSORT-TIE, fixed in /repo): sibling namespaces u7 / u07 tie, the
+   sorted listing keeps set order *)
+Definition k_T7 : tykey := {| k_ns := [[110; 115]; [117; 55]]; k_short := [84]; k_major := 1; k_minor := 0 |}.
+Definition k_T07 : tykey := {| k_ns := [[110; 115]; [117; 48; 55]]; k_short := [84]; k_major := 1; k_minor := 0 |}.
+Definition ex_ties : list tydecl :=
+  [ {| d_key := k_T7; d_deps := []; d_std := []; d_src := [[110; 115]; [117; 55]; [84]] |};
+    {| d_key := k_T07; d_deps := []; d_std := []; d_src := [[110; 115]; [117; 48; 55]; [84]] |} ].
+Theorem natsort_tie_refuted :
+  exists I e1 e2 p,
+    files _ facts_natsort_ties [] render0 e1 (mk_cfg LHtml false) I p
+    <> files _ facts_natsort_ties [] render0 e2 (mk_cfg LHtml false) I p.
+Proof. exists ex_ties, env_a, env_d, (item_path (mk_cfg LHtml false) (INs [[110; 115]])). vm_compute. discriminate. Qed.
+
+(* the same inputs with the tie-breaker: identical *)
+Lemma natsort_total_same :
+  forall p, files _ facts_all_true [] render0 env_a (mk_cfg LHtml false) ex_ties p
+          = files _ facts_all_true [] render0 env_d (mk_cfg LHtml false) ex_ties p.
+Proof.
+  intros p. apply run_env_indep_clean; try reflexivity.
+  vm_compute; repeat (constructor; [cbn; intuition discriminate|]); constructor.
+Qed.
+
+(* template_sets reporting resolved template directories, printed ungated by a banner: visible with user templates *)
+Definition cfg_user_templates (l : lang) : cfg :=
+  let c := mk_cfg l false in
+  {| c_lang := c_lang c; c_ext := c_ext c; c_stem := c_stem c; c_gen_ns := c_gen_ns c; c_embed_audit := false;
+     c_omit_ser := c_omit_ser c; c_prefer_sys := c_prefer_sys c; c_support_incs := c_support_incs c;
+     c_support_files := c_support_files c; c_user_templates := true |}.
+Theorem template_sets_paths_refuted :
+  exists I e1 e2 p,
+    files _ facts_tmplsets_paths tbl_tmplsets render0 e1 (cfg_user_templates LCpp) I p
+    <> files _ facts_tmplsets_paths tbl_tmplsets render0 e2 (cfg_user_templates LCpp) I p.
+Proof. exists ex_inputs, env_a, env_b, (p_A (cfg_user_templates LCpp)). vm_compute. discriminate. Qed.
 
 (* with --embed-auditing-info the files MAY differ: the premise of the theorem is needed *)
 Theorem audit_on_may_differ :
